@@ -1387,3 +1387,26 @@ def m_vec_retain(ex, a, callee, canon):
             keep.append(v.f[i])
     v.f[:] = keep
     return UNIT
+
+
+@model(r"^<(bool|u8|u16|u32|u64|usize|i8|i16|i32|i64|isize) as Default>::default$")
+def m_prim_default(ex, a, callee, canon):
+    ty = re.match(r"^<(\w+) as", canon).group(1)
+    return Bool(False) if ty == "bool" else Int(0, ty)
+
+
+@model(r"^<Vec<.*> as Default>::default$|^<Option<.*> as Default>::default$")
+def m_container_default(ex, a, callee, canon):
+    if canon.startswith("<Option"):
+        return NONE()
+    return Bytes(z3.Empty(SEQ)) if canon.replace(" ", "").startswith("<Vec<u8>") else ListV([])
+
+
+@model(r"^<(u8|u16|u32|u64|usize|i8|i16|i32|i64|isize) as Ord>::(min|max)$|^core::cmp::(min|max)$|^std::cmp::(min|max)$")
+def m_int_minmax(ex, a, callee, canon):
+    x, y = deref(a[0]), deref(a[1])
+    sg = is_signed(x.ty)
+    lt = (x.t < y.t) if sg else z3.ULT(x.t, y.t)
+    if canon.endswith("min"):
+        return Int(z3.If(lt, x.t, y.t), x.ty)
+    return Int(z3.If(lt, y.t, x.t), x.ty)
